@@ -12,6 +12,7 @@ import warnings
 
 HERE = os.path.dirname(os.path.abspath(__file__))
 SHIM = os.path.join(HERE, 'shim')
+SHIM_DS = os.path.join(HERE, 'shim_ds')   # DeepSpeed stand-in (also used by replays on the real torch)
 REPO = os.environ.get('VERIF_REPO', '/repo')
 
 _loaded: dict = {}
@@ -29,6 +30,8 @@ def setup_shim():
         sys.path.insert(0, root)
     if SHIM not in sys.path:
         sys.path.insert(0, SHIM)
+    if SHIM_DS not in sys.path:
+        sys.path.insert(0, SHIM_DS)
     import torch  # noqa: F401
     if not getattr(torch, '__version__', '').endswith('symtorch'):
         raise RuntimeError('real torch is importable here; the shim must come first')
